@@ -1078,6 +1078,8 @@ class Gen:
             self.call(ep, 'advertise_alternative_service', field=field, origin=rng.choice([b'https://example.com', b'o']))
         else:
             cands = [st for st in live if not st.mine and st.state in ('open', 'hcR') and st.sent in (NONE, INFO)]
+            # (also a stream this server has promised and not answered yet: its origin is the promised request's)
+            cands += [st for st in live if st.mine and st.state == 'rsvL' and st.sent in (NONE, INFO)]
             if not cands:
                 return
             self.call(ep, 'advertise_alternative_service', field=field, sid=rng.choice(cands).sid)
